@@ -110,3 +110,62 @@ func Harness_C18_purge_during_fetch() {
 	verifAssertKF("C18.racing.next-request-after-purge-goes-upstream", s2 == StatusFetching, "F11", withStore)
 	verifReach("C18.racing.end")
 }
+
+// racingStore: a faithful store whose Delete gives a concurrent request for the same key the chance
+// to run at the two points a real store call exposes (just before and just after the record is
+// removed).  The request runs there only when the shard lock is free: with the lock held a real
+// request would be blocked in GetHTTPCache until the purge returns, which is the "after" case below.
+type racingStore struct {
+	faithfulStore
+	race func(point int)
+}
+
+func (s *racingStore) Delete(key []byte) error {
+	if s.race != nil {
+		s.race(0)
+	}
+	err := s.faithfulStore.Delete(key)
+	if s.race != nil {
+		s.race(1)
+	}
+	return err
+}
+
+// A request for the key that races a purge of a persisted entry (sequentialised: the request is
+// placed at each point where the purge leaves the shard unlocked around its store call).  After the
+// purge has returned, the key must not be answered from the purged entry: the entry found by the
+// next request is either a fresh one that goes upstream (fetching) or the one that the racing
+// request is already fetching.
+func Harness_C18_purge_racing_request() {
+	st := &racingStore{}
+	d := NewDispatcher(DispatcherOption{Name: "c", Size: 16})
+	d.store = st
+	k := []byte("GET h /a")
+	e := d.GetHTTPCache(k)
+	s0, _ := e.Get()
+	verifAssume(s0 == StatusFetching)
+	e.Cacheable(&HTTPResponse{}, 100)
+	verifAssume(st.has)
+	at := verifChoice("raceAt", 3) // 0, 1: inside the store's Delete (before / after removal); 2: none
+	raced := false
+	st.race = func(point int) {
+		if point != at || raced || verifLockHeld(d.getLRU(k).mu) {
+			return
+		}
+		raced = true
+		r := d.GetHTTPCache(k)
+		r.mu.Lock()
+		r.get(ghostClock)
+		r.mu.Unlock()
+		verifReach("C18.race.request-ran-inside-purge")
+	}
+	d.RemoveHTTPCache(k)
+	st.race = nil
+	verifAssert("C18.race.persisted-copy-gone", !st.has)
+	n := d.GetHTTPCache(k)
+	n.mu.Lock()
+	s, _, _ := n.get(ghostClock)
+	n.mu.Unlock()
+	verifAssert("C18.race.next-request-after-purge-not-served-from-purged-entry", s == StatusFetching && n != e)
+	verifReach("C18.race.end")
+}
